@@ -440,3 +440,9 @@ class FluxCase:
         if self.from_membrane:
             d["membrane"] = describe_membrane(self.membrane)
         return d
+
+
+def refmodel_permeance_kg(permeance, component):
+    from . import refmodel
+
+    return refmodel.permeance_kg(permeance.value, permeance.units, component.molecular_weight)
